@@ -20,7 +20,7 @@ RULE = ("(i) all 64 edge subsets of the 4-node topological order x 24 textual or
         "result names, side-effect-only sinks returning None, forward references), several programs per process; (iii) random EEMS models; "
         "each followed by a random history of 0-8 run()/result/metadata/to_string/validate_params steps; distinct by (n, edge count, "
         "styles used, has-sink, has-colliding-strings, history step kinds)")
-REQUIRED_COUNTERS = ["programs_run", "execute_events", "read_events", "history_steps", "reference_values_compared", "flatten_contract_evaluations", "retry_programs", "grown_programs", "api_built_programs", "inside_execute_records_compared", "large_result_programs", "deep_chain_programs"]
+REQUIRED_COUNTERS = ["programs_run", "execute_events", "read_events", "history_steps", "reference_values_compared", "flatten_contract_evaluations", "retry_programs", "grown_programs", "api_built_programs", "inside_execute_records_compared", "large_result_programs", "deep_chain_programs", "program_copies_checked"]
 EXHAUSTIVE_NOTE = "thorough tier enumerates all 64 x 24 x 3 four-command programs"
 ASSUMPTIONS = ["a chain of %d direct references must run under the default recursion limit (the pinned tree manages about 330; deeper chains are left to C13: whatever happens there must be an MPilot error)" % 210,
                "programs that fail to run are judged elsewhere (C12-C14) unless the program is valid by construction",
@@ -279,7 +279,7 @@ def cases(ctx):
             nodes.append({"name": "B%d" % j, "Cells": nodes[0]["Cells"], "L": sorted(set(rng.choice(["B%d" % x for x in range(j)]) for _ in range(rng.randint(1, 2))))})
         order = list(range(k))
         rng.shuffle(order)
-        yield {"kind": "bigdag", "nodes": nodes, "order": order, "history": [[rng.choice(["read", "read", "run"]), rng.randrange(k)] for _ in range(rng.randint(2, 5))]}
+        yield {"kind": "bigdag", "nodes": nodes, "order": order, "history": [[rng.choice(["read", "read", "run", "copy"]), rng.randrange(k)] for _ in range(rng.randint(2, 5))]}
     # a long chain of direct references (each command reads its predecessor), in a process of its own without any recorder
     for i in range(ctx.n(1, 4)):
         yield {"kind": "chain", "depth": DEEP_CHAIN, "rseed": rng.randrange(10 ** 9), "style": "direct"}
@@ -292,7 +292,7 @@ def cases(ctx):
 def _gen_history(rng, n):
     steps = []
     for _ in range(rng.choice([0, 1, 2, 3, 5, 8])):
-        k = rng.choice(["run", "run", "read", "read", "read", "metadata", "to_string", "validate"])
+        k = rng.choice(["run", "run", "read", "read", "read", "metadata", "to_string", "validate", "copy"])
         steps.append([k, rng.randrange(n)])
     return steps
 
@@ -358,6 +358,20 @@ def run_history(ctx, prog, names, returned, history, tag, case_detail):
                     ctx.fail("%s:history:re-read-differs" % tag, dict(case_detail, command=name, got=repr(v)[:200], want=repr(returned[name])[:200]))
             elif kind == "metadata":
                 cmd.metadata
+            elif kind == "copy":
+                # a deep copy of the program that has run: its results are there (equal to the original's), reading them
+                # executes nothing, and a run of the copy has nothing left to do
+                trace.stop()
+                clone = trace.clone_program(prog)
+                log = trace.start()
+                trace.attach(clone)
+                for n2 in names:
+                    v2 = clone.commands[n2].result
+                    if not _veq(v2, returned[n2]):
+                        ctx.fail("%s:history:copy-of-the-program-holds-another-result" % tag, dict(case_detail, command=n2, got=repr(v2)[:200], want=repr(returned[n2])[:200]))
+                        return kinds
+                clone.run()
+                ctx.count("program_copies_checked")
             elif kind == "to_string":
                 prog.to_string()
             else:
